@@ -60,6 +60,11 @@ impl Bank {
     }
 
     pub fn merge(&mut self, segment: &Segment) {
+        // A segment that holds no data writes no address: it may not stretch a bank that already holds data
+        if segment.range().is_empty() && !self.range.is_empty() {
+            return;
+        }
+
         self.range = if self.range.is_empty() {
             let new_range = segment.range();
             self.data = vec![self.options.fill.unwrap_or_default(); new_range.len()];
